@@ -8,6 +8,7 @@ zone's v1 table as parsed independently by vlib/tzif.py.
 import collections
 import datetime
 import re
+import zoneinfo
 
 from . import common
 from .common import hex16, unhex16
@@ -130,6 +131,13 @@ def run(ctx):
             lo_, hi_ = sorted((trs_[k] + ob, trs_[k] + oa))
             for wn in {lo_, hi_ - 1, (lo_ + hi_) // 2, rng.randint(lo_, hi_ - 1)}:
                 items.append(("u", inst_of_epoch(wn), "edge", wn, None))
+        # behind the end of the 32-bit table (2038 .. 2099): the offset stays what the last transition made it; judged where the
+        # system database (64-bit data, POSIX rule) says the same, counted as the recorded limit D190 where it does not
+        off_last = tda_[tys_[-1]][0] if trs_ else (tda_[0][0] if tda_ else 0)
+        for _ in range(4):
+            uf = rng.randint(2147483648, 4102444799)
+            items.append(("l", inst_of_epoch(uf), "far", uf, off_last))
+            items.append(("u", inst_of_epoch(uf + off_last), "far", uf + off_last, uf))
         rng.shuffle(items)
         for k in range(0, len(items), 100000):        # one line per zone: a zone object's cache lives as long as the process
             chunk = items[k:k + 100000]
@@ -152,6 +160,7 @@ def run(ctx):
     nchk = 0
     nskip = 0
     nedge = 0
+    nfar = nfar_rules = 0
     for i in range(0, len(meta2), 2):
         kind, z, chunk = meta2[i]
         got = out2[i].split() if i < len(out2) else []
@@ -163,6 +172,23 @@ def run(ctx):
                 m = mk[mki] if mki < len(mk) else ""
                 mki += 1
             if c[2] is None:
+                continue
+            if c[2] == "far":
+                uf = c[3] if c[0] == "l" else c[4]
+                try:
+                    true_off = int(datetime.datetime.fromtimestamp(uf, zoneinfo.ZoneInfo(z)).utcoffset().total_seconds())
+                except Exception:
+                    continue
+                off_last_ = (c[4] if c[0] == "l" else c[3] - c[4])
+                if true_off != off_last_:
+                    nfar_rules += 1              # a zone whose rules go on after 2037: recorded limit D190
+                    continue
+                nchk += 1
+                nfar += 1
+                want = hex16(*inst_of_epoch(uf + true_off)) if c[0] == "l" else hex16(*inst_of_epoch(uf))
+                if g != want:
+                    fails.append((ops2[i], j, "%s: %s %s (behind the last recorded transition, the offset is still %d s): should be %s, echse says %s"
+                                  % (z, "UTC" if c[0] == "l" else "local", c[1][:6], true_off, unhex16(want)[:6], unhex16(g)[:6] if len(g) == 16 else g)))
                 continue
             if c[2] == "edge":
                 # a wall clock the zone has twice means its first occurrence, one it has not got is read with the offset from
@@ -235,7 +261,6 @@ def run(ctx):
                           % (par, unhex16(want)[:6], unhex16(m_.group(1))[:6] if m_ else g[:80])))
     ctx.cov["events_with_tzid_parameter"] = len(evops)
     # ---- many zones in one process: the instant's zone field has six bits
-    import zoneinfo
     many = [z for z in zones_all if "/" in z and not z.startswith(("Etc/", "posix", "right"))]
     many = rng.sample(many, min(len(many), 70))
     w0 = (2024, 7, 1, 12, 0, 0, 1023)
@@ -265,7 +290,8 @@ def run(ctx):
     probes = [("gap-overlap", "America/New_York", "20070311T023000", (2007, 3, 11, 7, 30, 0), "a local time that does not exist is read with the offset before the gap (RFC 5545 3.3.5)"),
               ("gap-overlap", "Europe/Berlin", "20071028T023000", (2007, 10, 28, 0, 30, 0), "a local time that exists twice is its first occurrence (RFC 5545 3.3.5)"),
               ("after-2037", "Europe/Berlin", "20400615T120000", (2040, 6, 15, 10, 0, 0), "summer time in 2040"),
-              ("after-2037", "Asia/Kolkata", "20400615T120000", (2040, 6, 15, 6, 30, 0), "a zone without changes, in 2040")]
+              ("after-2037-wrap", "Asia/Kolkata", "20400615T120000", (2040, 6, 15, 6, 30, 0), "a zone without changes, in 2040"),
+              ("after-2037-wrap", "Asia/Kolkata", "20800526T125900", (2080, 5, 26, 7, 29, 0), "a zone without changes, in 2080")]
     pout, _, _ = ctx.impl(sexe, ["p.occ %s 1" % pcal(z, v).encode().hex() for _, z, v, _, _ in probes])
     seen = {}
     for k, (cls_, z, v, want, what) in enumerate(probes):
@@ -299,6 +325,7 @@ def run(ctx):
         # the decidable side condition of utc_of_local_first_spaced / utc_of_local_gap (Lemmas/Tz8.lean `Spaced`): consecutive
         # transitions farther apart than any two offsets of the zone differ; the oracle does not depend on it
         "zones_meeting_Spaced": sum(1 for z_ in zones if z_ in ztab and spaced(ztab[z_])), "repeated_or_skipped_wall_clocks_judged_by_rfc": nedge,
+        "conversions_2038_2099_judged": nfar, "conversions_2038_2099_in_zones_with_later_rules_not_judged": nfar_rules,
         "harness_status": [st1, st2],
         "impl_vs_spec_failures": len(fails),
         "impl_vs_model_differences": len(corr),
